@@ -123,6 +123,10 @@ def generate(rs, mode, tier, index):
     else:
         lbp = sig(rng.uniform(0.0, 0.15, n_layers))
         ubp = sig(rng.uniform(0.7, 1.0, n_layers))
+        if n_layers > 1 and rng.coin(0.5):
+            # mixed: some layers may go fully dark (exactly 0), others keep a clear minimum
+            lbp = sig(rng.uniform(0.1, 0.3, n_layers))
+            lbp[rng.integers(0, n_layers - 1)] = 0.0
     n = rng.integers(max(4, n_layers + 2), 30)
     if n_rec >= n_layers + 2 and rng.coin(0.15):
         n = n_rec        # as many samples as receptors: a shape coincidence helpers may trip on
